@@ -29,8 +29,8 @@ def generate(rng, seed, index, tier):
     kw["penalty_update"] = str(rng.choice(["Constant", "DualNorm", "DualEquilibration", "ParetoDecrease", "ObjectiveFilter", "LagrangianFilter"], p=[0.1, 0.4, 0.15, 0.15, 0.1, 0.1]))
     if rng.random() < 0.6:
         y0 = np.round(rng.normal(size=spec["m"]) * float(rng.choice([1.0, 50.0, 1e4])), 3)
-    if rng.random() < 0.4:
-        kw["rho"] = float(10.0 ** int(rng.integers(-8, 2)))
+    if rng.random() < 0.5:
+        kw["rho"] = float(10.0 ** int(rng.integers(-13, 2)))
     kw["iteration_limit"] = int(rng.choice([10, 40, 150], p=[0.3, 0.5, 0.2]))
     kw = gen.quiet_params(kw)
     return gen.base_world(seed, ID, index, spec, x0, y0, kw, case={"faulted": bool(rng.random() < 0.25), "pts_seed": int(rng.integers(0, 2**31))})
